@@ -2,7 +2,7 @@
 function, extracted as it is) and the scan over all recorded nodes that ends the function (R28). Decided: when the check answers Ok the
 dependency graph it was given has a rank that falls along every requirement (so the evaluators' recursion along requirements is well-founded: no
 stack overflow, no hang), and when it answers an error a requirement chain really leads from the reported node back to itself (no acyclic model
-is rejected). Not here: how the graph is collected from the definitions (iterator chains: filter_map / chain / extend)."""
+is rejected); the search terminates on every graph (decreases: the recorded or required nodes that are neither on the path nor finished). Not here: how the graph is collected from the definitions (iterator chains: filter_map / chain / extend)."""
 M = 'model-evaluator/src/model_evaluator.rs'
 P = ['C12']
 A = ['C12', 'C05']
@@ -20,13 +20,14 @@ UNIT = {
         {'kind': 'vrs', 'file': 'cycles/prelude.vrs'},
         {'kind': 'vrs', 'file': 'cycles/lemmas.vrs'},
         {'kind': 'fn', 'src': M, 'path': 'fn check_cyclic_dependencies::fn find_cycle', 'key': 'cycles::find_cycle', 'props': P, 'auto_props': A, 'loops': 1, 'ret': 'r',
-         'attrs': '#[verifier::exec_allows_no_decreases_clause]',
+         'decreases': 'open_nodes(%s, old(path)@, old(acyclic)@).len()' % G,
          'sig_rewrite': [(r'^(\s*)fn ', r'\1pub fn ')],
          'rewrites': [('RX', 'R24', r'dependencies\.get\(node\)\.map\(\|v\| v\.as_slice\(\)\)\.unwrap_or_default\(\)', 'successors(dependencies, node)', 1)],
          'body_prefix': USE,
          'requires': [('the_path_is_outside_the_finished_set', 'disjoint(old(path)@, old(acyclic)@)'),
                       ('the_finished_set_is_ranked', 'wf(%s, old(acyclic)@)' % G),
-                      ('the_path_then_the_node_is_a_requirement_chain', 'walk(%s, names(old(path)@).push(node@))' % G)],
+                      ('the_path_then_the_node_is_a_requirement_chain', 'walk(%s, names(old(path)@).push(node@))' % G),
+                      ('the_node_is_recorded_or_required', 'universe(%s).contains(node@)' % G, ['C12', 'C05'])],
          'ensures': [('the_finished_set_stays_ranked', 'wf(%s, final(acyclic)@)' % G),
                      ('the_finished_set_only_grows', 'forall |v: Seq<char>| inset(old(acyclic)@, v) ==> inset(final(acyclic)@, v)'),
                      ('nothing_on_the_path_is_finished', 'forall |v: Seq<char>| inset(final(acyclic)@, v) && !inset(old(acyclic)@, v) ==> !onpath(old(path)@, v)'),
@@ -55,9 +56,9 @@ UNIT = {
                                           ('grows', 'forall |v: Seq<char>| inset(old(acyclic)@, v) ==> inset(acyclic@, v)'),
                                           ('new_members_off_the_path', 'forall |v: Seq<char>| inset(acyclic@, v) && !inset(old(acyclic)@, v) ==> !onpath(path@, v)'),
                                           ('requirements_so_far_are_finished', 'forall |j: int| 0 <= j < it.index@ ==> inset(acyclic@, (#[trigger] succ(%s, node@)[j])@)' % G),
-                                          ('entry', 'disjoint(old(path)@, old(acyclic)@) && !inset(old(acyclic)@, node@)'),
+                                          ('entry', 'disjoint(old(path)@, old(acyclic)@) && !inset(old(acyclic)@, node@) && !onpath(old(path)@, node@) && universe(%s).contains(node@)' % G),
                                           ('chain', 'walk(%s, names(path@))' % G)],
-                            'body_prefix': ('proof {\n  let k = it.index@ as int;\n  assert(*required == succ(%(g)s, node@)[k]);\n  let w = names(path@).push(required@);\n'
+                            'body_prefix': ('proof {\n  let k = it.index@ as int;\n  assert(*required == succ(%(g)s, node@)[k]);\n  lemma_universe(%(g)s, skey(node@), k);\n  lemma_fewer_open(%(g)s, old(path)@, old(acyclic)@, node, acyclic@);\n  let w = names(path@).push(required@);\n'
                                             '  assert forall |i: int| 0 <= i < w.len() - 1 implies #[trigger] step(%(g)s, w, i) by {\n'
                                             '    if i < names(path@).len() - 1 { assert(w[i] == names(path@)[i] && w[i + 1] == names(path@)[i + 1] && step(%(g)s, names(path@), i)); }\n'
                                             '    else { assert(w[i] == node@ && w[i + 1] == required@ && succ(%(g)s, node@)[k]@ == required@); }\n  }\n'
@@ -79,14 +80,13 @@ UNIT = {
          'loop_specs': {0: {'iter_name': 'it',
                             'invariant': [('ranked', 'wf(%s, acyclic@)' % G),
                                           ('nodes_so_far_are_finished', 'forall |j: int| 0 <= j < it.index@ ==> inset(acyclic@, (#[trigger] it.seq()[j])@)')],
-                            'body_prefix': 'proof { assert(names(Seq::<&str>::empty()).push(node@).len() == 1); }'}}},
+                            'body_prefix': 'proof { assert(names(Seq::<&str>::empty()).push(node@).len() == 1); axiom_string_key_model(); assert(%s.dom().contains(*node)); lemma_universe0(%s, *node); }' % (G, G)}}},
     ],
 }
 ASSUMPTIONS = ['A-std: vstd specifications of HashMap / HashSet / Vec; added axioms: a String / a &str obeys the hash-table key model and is looked up by its characters (contracts/common/string_keys.vrs, '
                'contracts/cycles/prelude.vrs), <[&str]>::contains compares characters',
                'R24 stubs: `dependencies.get(node).map(|v| v.as_slice()).unwrap_or_default()` answers the requirements recorded under the node (none without a record); `trim_start_matches` only shapes the message',
-               'R28: the scan is verified as a function of the collected graph; termination of find_cycle is not proved (exec_allows_no_decreases_clause) - only the BOUNDED stand-in single-structural-faults-never-crash runs it']
+               'R28: the scan is verified as a function of the collected graph; find_cycle terminates: every call puts one more node of the finite set of recorded and required nodes on the path or into the finished set (decreases: the nodes in neither)']
 NOT_DECIDED = {'C12': ['that the collected graph holds every requirement the evaluators follow (decision -> required decisions / knowledge; service -> output, encapsulated and input decisions; knowledge -> knowledge; '
-                       'item definition -> type references of itself and its components): iterator chains outside Verus\' reach - BOUNDED single-structural-faults-never-crash (28 generated cyclic models)',
-                       'termination of find_cycle'],
+                       'item definition -> type references of itself and its components): iterator chains outside Verus\' reach - BOUNDED single-structural-faults-never-crash (28 generated cyclic models)'],
                'C04': ['see C12: the collected graph']}
